@@ -162,12 +162,21 @@ def run(rep, tier, rng):
     # counts beyond the reader's pre-sizing cap (1024): parts, patches, rings, points; each followed by a small record
     # (a reader that loses its place in the large one misreads the next); model too in the thorough tier
     bigs = []
-    for code, lens in ((31, [1] * 1030), (3, [2] * 1030), (5, [1] * 1026), (8, None), (13, [2] * 1100), (25, [3] * 1025)):
+    # ... and vertex counts at and around powers of two (natural block sizes of a reader), per part and per multipoint
+    pow2 = [(3, [64, 2]), (13, [192]), (8, [128]), (5, [128, 3]), (3, [63, 65, 1, 0, 127, 200, 2]), (28, [256]), (15, [32, 64, 33]),
+            (31, [16, 512]), (23, [1024]), (8, [1024]), (18, [64])]
+    if tier != "thorough":
+        pow2 = pow2[:3] + rng.sample(pow2[3:], 4)
+    for code, lens in [(31, [1] * 1030), (3, [2] * 1030), (5, [1] * 1026), (8, None), (13, [2] * 1100), (25, [3] * 1025)] + pow2:
         if code in refesri.MULTIPOINT:
-            rec = {"code": code, "box": [0] * 4, "pts": [[shapes.f2b(float(i)), shapes.f2b(1.0)] for i in range(1100)]}
+            rec = {"code": code, "box": [0] * 4, "pts": [[shapes.f2b(float(i)), shapes.f2b(1.0)] for i in range(lens[0] if lens else 1100)]}
+            if code in refesri.HAS_Z:
+                rec["zrange"], rec["zs"] = [0, 0], [shapes.f2b(float(i)) for i in range(len(rec["pts"]))]
+            if code in refesri.HAS_M:
+                rec["mrange"], rec["ms"] = (None, None) if code == 18 else ([0, 0], [shapes.f2b(float(-i)) for i in range(len(rec["pts"]))])
         else:
             rec = F.gen_rec(rng, code, "finite", lens=lens)
-        m = {"type": code, "box": [0] * 8, "records": [{"num": 1, "shape": rec}, {"num": 2, "shape": F.gen_rec(rng, code, "finite", lens=[2]) if code not in refesri.MULTIPOINT else {"code": code, "box": [0] * 4, "pts": [[0, 0]]}}]}
+        m = {"type": code, "box": [0] * 8, "records": [{"num": 1, "shape": rec}, {"num": 2, "shape": F.gen_rec(rng, code, "finite", lens=[2]) if code not in refesri.MULTIPOINT else F.gen_rec(rng, code, "finite", allow_degenerate=False)}]}
         bigs.append(m)
     bcases, boracles = [], []
     for m in bigs:
@@ -194,7 +203,44 @@ def run(rep, tier, rng):
             nfail_p += 1
             if nfail_p == 1:
                 rep.violation({"kind": "oracle", "what": msg, "case_kind": "path", "shp_hex": shp.hex()[:600]})
+    # long conformant files on disk (40-100 KiB, hundreds of records of varying sizes): the path-based readers go
+    # through std's 8 KiB buffered reader, and every kind of field — record header, type code, counts, part offsets,
+    # coordinates — straddles one of its refills somewhere
+    longs = [(1, 900, None), (11, 1700, None), (3, 300, [2, 2, 3]), (25, 400, [4, 4, 4, 4]), (31, 250, [3, 3]), (8, 500, None)]
+    for li, (code, nrecs, lens) in enumerate(longs if tier == "thorough" else longs[:4]):
+        recs = []
+        for i in range(nrecs):
+            if code in refesri.POINT:
+                rec = F.gen_rec(rng, code, "finite")
+                if code == 11 and i % 3:
+                    rec["m"] = None                       # PointZ without its measure: records of two sizes
+            elif code in refesri.MULTIPOINT:
+                rec = {"code": code, "box": [0] * 4, "pts": [[shapes.f2b(float(i)), shapes.f2b(float(j))] for j in range(1 + i % 4)]}
+            else:
+                rec = F.gen_rec(rng, code, "finite", lens=[k + (i + j) % 2 for j, k in enumerate(lens)])
+            recs.append({"num": i + 1, "shape": rec})
+        m = {"type": code, "box": [0] * 8, "records": recs}
+        shp, shx = refesri.encode_shp(m), refesri.encode_shx(m)
+        for with_idx in (True, False):
+            msg = pathio.check(rep, dev, "c03", "long%d%s" % (li, "i" if with_idx else ""), shp, shx if with_idx else None, code,
+                               "long conformant file (%d records of type %d, %d bytes) on disk, %s index" % (nrecs, code, len(shp), "with" if with_idx else "without"))
+            if msg:
+                nfail_p += 1
+                if nfail_p == 1:
+                    rep.violation({"kind": "oracle", "what": msg, "case_kind": "path"})
+        # and from a source that hands out a few bytes per read call (in memory), with the independent denotation as oracle
+        if li < 2:
+            small = {"type": code, "box": [0] * 8, "records": recs[:5]}
+            for sched in ([6], [3], [7, 1, 5]):
+                sshp = refesri.encode_shp(small)
+                r = sfv.run_impl(dev, [C.read_case(-1, sshp, None, [("it", -1)], sched=sched)])[0]
+                msg = oracle_for(small, -1, [("it", -1)])(None, r)
+                rep.count_case((code, tuple(sched), tuple(r[:8])))
+                if msg:
+                    nfail_p += 1
+                    rep.violation({"kind": "oracle", "what": "source delivering %r bytes per read call: %s" % (sched, msg), "case_kind": "read"})
     pathio.cleanup("c03")
+    rep.cov["long_files_read_by_path"] = len(longs if tier == "thorough" else longs[:4])
     rep.cov["files_read_by_path"] = (60 if tier == "thorough" else 24)
     rep.assumptions += ["the Coq transcription of the whitepaper (Spec/Esri.v) is trusted; it is cross-checked by the fact that "
                         "model reader, real reader and the Python denotation agree on files produced by the independent Python encoder",
